@@ -87,6 +87,7 @@ type batchState struct {
 	idx     int
 	skip    []int64
 	retries int
+	hangs   int
 }
 
 type agg struct {
@@ -421,6 +422,7 @@ func runBatch(o *SupOpts, p *Prop, bs *batchState, nb int, workDir string, limit
 			if hung == 3 {
 				w.Detail = "worker exceeded the batch watchdog and the journalled case alone exceeded its limit 3 times out of 3"
 				a.addVio("watchdog@hang", w, 1)
+				bs.hangs++
 			} else {
 				a.inconclusive++
 				a.notes = append(a.notes, fmt.Sprintf("batch %d hit the %s watchdog at ordinal %d but the case alone finished (%d/3 slow): inconclusive, not a violation", bs.idx, limit, ord, hung))
@@ -435,6 +437,14 @@ func runBatch(o *SupOpts, p *Prop, bs *batchState, nb int, workDir string, limit
 		}
 		bs.skip = append(bs.skip, ord)
 		bs.retries++
+		if bs.hangs >= 4 {
+			// every confirmed hang costs the batch watchdog plus three confirmations: after four of them the
+			// batch is given up (the check has failed anyway; the batch is listed as incomplete)
+			a.mu.Lock()
+			a.incomplete = append(a.incomplete, fmt.Sprintf("batch %d: given up after %d confirmed hangs", bs.idx, bs.hangs))
+			a.mu.Unlock()
+			return
+		}
 		if bs.retries > 25 {
 			a.mu.Lock()
 			a.incomplete = append(a.incomplete, fmt.Sprintf("batch %d: more than 25 worker deaths", bs.idx))
